@@ -86,3 +86,10 @@ def div_const(prefix, s, w, f, d, neg, form, timeout=900):
                timeout=timeout, generic_extra=", %d, %d, %s, %d" % (dh, dl, "true" if neg else "false", form),
                suffix="_%sd%x_%s" % ("m" if neg else "", d, FORMS[form][:3]),
                bounds="all 2^%d dividends, divisor constant" % w)
+
+
+def mul_pow2(prefix, s, w, f, k, neg, timeout=900):
+    return job(prefix, "mul_pow2", s, w, f, "for EVERY a of %%(t)s and the constant factor %s2^%d ulp (both operand orders): all five multiplication forms "
+               "equal floor(a*b/2^f) (flag, value mod 2^W, None, saturation side)" % ("-" if neg else "+", k),
+               timeout=timeout, generic_extra=", %d, %s" % (k, "true" if neg else "false"), suffix="_%sp%d" % ("m" if neg else "", k),
+               bounds="all 2^%d values of a, factor constant" % w)
